@@ -32,6 +32,14 @@ func rewardStep() func(t *rapid.T, w *world.World) world.Action {
 				}
 			}
 		}
+		// per-consumer commission rates that differ from the validators' own rate
+		if len(w.Agenda) == 0 && len(w.ConsumerIDs()) > 0 && rapid.IntRange(0, 99).Draw(t, "commission?") < 6 {
+			v := rapid.SampledFrom(w.ValOrder).Draw(t, "cval")
+			if !w.Busy(v) {
+				return world.Action{Kind: world.KSetCommission, Sender: v, Val: v, Consumer: rapid.SampledFrom(w.ConsumerIDs()).Draw(t, "ccons"),
+					Rate: rapid.SampledFrom([]string{"0.0", "0.05", "0.25", "0.5", "1.0", "0.333333333333333333"}).Draw(t, "crate")}
+			}
+		}
 		return base(t, w)
 	}
 }
